@@ -270,6 +270,9 @@ def rule_r1_r2(ck, prog, cg, roles, batch=True):
                 from .common import scenario_sources
 
                 def ticket_role(ff, cnd, ctx_):
+                    dep_ = c03._depends_on_pending(g, roles, ff, cnd, ctx_)
+                    if dep_ is not None:
+                        return 'pending', dep_
                     core, pol = norm_cond(ff, cnd)
                     cn_ = strip_casts(ff, core)
                     if cn_['k'] == 'ref' and cn_.get('id') in ticket_vars:
